@@ -6,6 +6,11 @@
      u <path> <parent label> <label> <name> <payload>   create / rewrite the array IN PLACE    -> "w <status> <index | 0>"
      d <path> <parent label> <name>                     cg_delete_node(name) at that position   -> "d <status>"
      v <path> <parent label> <label>                    the session view of one kind            -> "v <n> name:payload,..."
+     ln <path> <parent label> <label> <name> <file|-> <target path>   cg_link_write: Mirror.link_at (the file learns of the
+                                                        link, the session does not; refused under a parent label that is
+                                                        not on the regenerated white list)      -> "l <status>"
+                                                        the payload of the link is a negative code of (file, target path),
+                                                        printed name:@<file>|<target path> by v
      reopen ...                                         cg_close + cg_open: every instance      -> "o 0"
      drop <path>                                        forget the instances at and below <path> (a single child the model
                                                         does not represent was deleted)         -> nothing
@@ -49,10 +54,20 @@ let drop_below prefix =
 
 let join path name = if path = "/" then "/" ^ name else path ^ "/" ^ name
 
+(* the identity of a link (file, path) <-> the opaque negative payload the model carries *)
+let link_ids : (Stdlib.String.t, int) Hashtbl.t = Hashtbl.create 16
+let link_strs : (int, Stdlib.String.t) Hashtbl.t = Hashtbl.create 16
+let link_code (s : Stdlib.String.t) : int =
+  match Hashtbl.find_opt link_ids s with
+  | Some c -> c
+  | None -> let c = - (Hashtbl.length link_ids + 1) in Hashtbl.replace link_ids s c; Hashtbl.replace link_strs c s; c
+
 let show_view (v : (Model.string * z) list) =
   let n = Stdlib.List.length v in
+  let pay p = let i = int_of_z p in
+    if i < 0 then "@" ^ (match Hashtbl.find_opt link_strs i with Some s -> s | None -> "?") else string_of_int i in
   Printf.printf "v %d %s\n" n
-    (if n = 0 then "-" else Stdlib.String.concat "," (Stdlib.List.map (fun (nm, p) -> Printf.sprintf "%s:%d" (os nm) (int_of_z p)) v))
+    (if n = 0 then "-" else Stdlib.String.concat "," (Stdlib.List.map (fun (nm, p) -> Printf.sprintf "%s:%s" (os nm) (pay p)) v))
 
 let tables () =
   Printf.printf "delete_table_ok %b\n"
@@ -60,6 +75,12 @@ let tables () =
   Printf.printf "write_table_ok %b\n" (write_table_ok structs free_sigs write_table);
   Printf.printf "addr_tails_ok %b\n" (addr_tails_ok free_sigs addr_tails);
   Printf.printf "sorting_ok %b\n" (sorting_ok sort_calls sort_comparator sort_names_callers);
+  Printf.printf "general_write_mentions_cache %b\n" general_write_mentions_cache;
+  Printf.printf "link_writer_ok %b\n" (link_writer_ok goto_table link_parents link_calls link_assigns);
+  Printf.printf "copy_keeps_links %b\n" (copy_keeps_links copy_link_guard copy_else_recurses copy_callers);
+  Stdlib.List.iter (fun l -> Printf.printf "bad_link_parent %s\n" (Stdlib.String.concat "_" (Stdlib.String.split_on_char ' ' (os l))))
+    (bad_link_parents goto_table link_parents);
+  Printf.printf "link_parents %s\n" (Stdlib.String.concat "," (Stdlib.List.map os link_parents));
   Stdlib.List.iter (fun b -> Printf.printf "bad_dblock %s\n" (os b)) (bad_dblocks structs free_sigs not_deletable goto_table delete_table);
   Stdlib.List.iter (fun b -> Printf.printf "bad_wrow %s\n" (os b)) (bad_wrows structs free_sigs write_table);
   Stdlib.List.iter (fun (f, h) -> Printf.printf "bad_nrow %s %s\n" (os f) (Stdlib.String.concat "_" (Stdlib.String.split_on_char ' ' (os h))))
@@ -82,6 +103,7 @@ let tables () =
     (positions_without_block delete_table goto_table);
   Stdlib.List.iter (fun p ->
       Stdlib.List.iter (fun l -> Printf.printf "unsound %s %s\n" (os p) (os l)) (unsound_kinds delete_table not_deletable goto_table p);
+      Printf.printf "goto %s %s\n" (os p) (Stdlib.String.concat "," (Stdlib.List.map os (goto_children goto_table p)));
       Printf.printf "kinds %s %s\n" (os p)
         (Stdlib.String.concat "," (Stdlib.List.map os (sound_kinds delete_table not_deletable goto_table p))))
     (all_positions goto_table);
@@ -109,6 +131,13 @@ let run () =
         let st = int_of_z st in
         if st = 0 then drop_below (join path name);
         Printf.printf "d %d\n" (if st = 0 then 0 else 1)
+    | ["ln"; path; pl; label; name; file; target] ->
+        Hashtbl.replace labels path pl;
+        let s = get path in
+        let code = link_code ((if file = "-" then "" else file) ^ "|" ^ target) in
+        let (s', st) = link_at link_parents (cs pl) s (cs label) (cs name) (z_of_int code) in
+        Hashtbl.replace insts path s';
+        Printf.printf "l %d\n" (int_of_z st)
     | ["v"; path; pl; label] ->
         Hashtbl.replace labels path pl;
         show_view (view_session (get path) (cs label))
